@@ -235,7 +235,7 @@ class CentralizedTaskingEngine(TaskingEngine):
                 sensor_position_set.add(position_key)
             else:
                 obs_dict = observation.makeDictionary()
-                msg = f"Dropped duplicate observation: {obs_dict.sensor_id} of {obs_dict.target_id} at {obs_dict.julian_date}"
+                msg = f"Dropped duplicate observation: {obs_dict['sensor_id']} of {obs_dict['target_id']} at {obs_dict['julian_date']}"
                 self.logger.warning(msg)
 
         if imported_observations:
